@@ -537,7 +537,34 @@ func genRows(r *vh.Rng, t tableDef, kind, nrows int, c Cfg) rowsDef {
 	if sameImages {
 		pa = pb
 	}
+	// ... or change one column and log, with minimal row images, only the key column before and only the changed column
+	// after: when the two cells hold the same bytes (both NULL, or equal values of columns of one type) the two images
+	// are byte-identical although they describe different columns
+	n := len(t.cols)
+	shifted := kind == 1 && !sameImages && n >= 2 && q.Chance(1, 4)
+	si, sj := 0, 0
+	if shifted {
+		si = q.Intn(n)
+		sj = (si + 1 + q.Intn(n-1)) % n
+	}
 	for i := 0; i < nrows; i++ {
+		if shifted {
+			v := vh.A("null")
+			if t.cols[si].ty.String() == t.cols[sj].ty.String() && t.cols[si].uns == t.cols[sj].uns && q.Bool() {
+				v = t.cols[si].gen(q)
+			} else {
+				rd.nullsSeen = true
+			}
+			bi, ai := make([]vh.Val, n), make([]vh.Val, n)
+			for k := range bi {
+				bi[k], ai[k] = vh.A("absent"), vh.A("absent")
+			}
+			bi[si], ai[sj] = v, v
+			rd.absentSeen = true
+			rd.before = append(rd.before, bi)
+			rd.after = append(rd.after, ai)
+			continue
+		}
 		if kind != 0 {
 			rd.before = append(rd.before, genImage(r, t, pb, &rd))
 		}
